@@ -41,6 +41,13 @@ where G: GraphRef + IntoNeighbors + Visitable + NodeIndexable, G::NodeId: std::f
             while let Some(x) = d.next(g) { v.push(g.to_index(x)); }
             seq(v)
         }
+        "dfspost_reset" => {
+            let mut d = DfsPostOrder::new(g, n(a[0])); let mut v = Vec::new();
+            while let Some(x) = d.next(g) { v.push(g.to_index(x)); }
+            d.reset(g); d.move_to(n(a[1]));
+            while let Some(x) = d.next(g) { v.push(g.to_index(x)); }
+            seq(v)
+        }
         "bfs" => { let mut d = Bfs::new(g, n(a[0])); let mut v = Vec::new(); while let Some(x) = d.next(g) { v.push(g.to_index(x)); } seq(v) }
         "dfsvisit" => {
             let ns = a[0] as usize;
@@ -180,7 +187,7 @@ fn gen_queries(stream: &str, r: &mut Rng, ids: &[usize], bound: usize, directed_
             0 => qs.push(("dfs".into(), vec![pick(r)])),
             1 => qs.push(("dfs_moveto".into(), vec![pick(r), r.below(4) as i64, pick(r)])),
             2 => qs.push(("dfs_reset".into(), vec![pick(r), pick(r)])),
-            3 => { if r.chance(70) { qs.push(("dfspost".into(), vec![pick(r)])) } else { qs.push(("dfspost_moveto".into(), vec![pick(r), pick(r)])) } }
+            3 => { let c = r.below(100); if c < 55 { qs.push(("dfspost".into(), vec![pick(r)])) } else if c < 80 { qs.push(("dfspost_moveto".into(), vec![pick(r), pick(r)])) } else { qs.push(("dfspost_reset".into(), vec![pick(r), pick(r)])) } }
             4 => qs.push(("bfs".into(), vec![pick(r)])),
             5 | 6 => {
                 let ns = 1 + r.below(3);
